@@ -11,15 +11,20 @@ pub struct DocCase {
     pub text: String,
     /// markdown.refs_extension
     pub ext: String,
-    /// 0: from_markdown+to_markdown, 1: import+export, 2: import then update_key, 3: LSP formatting
+    /// 0: from_markdown+to_markdown, 1: import+export, 2: import of `prev` then update_key, 3: LSP formatting
     pub door: u8,
+    /// an earlier version of the note (used by door 2)
+    #[serde(default)]
+    pub prev: String,
 }
 
 pub fn doc_case(features: &Features, max_blocks: usize, doors: u8) -> BoxedStrategy<DocCase> {
     let mut cfg = DocCfg::new(features);
     cfg.max_blocks = max_blocks;
-    (doc::text(&cfg), prop_oneof![Just(String::new()), Just(".md".to_string())], 0u8..doors)
-        .prop_map(|(text, ext, door)| DocCase { text, ext, door })
+    let mut small = cfg.clone();
+    small.max_blocks = 3;
+    (doc::text(&cfg), prop_oneof![Just(String::new()), Just(".md".to_string())], 0u8..doors, doc::text(&small))
+        .prop_map(|(text, ext, door, prev)| DocCase { text, ext, door, prev: if door == 2 { prev } else { String::new() } })
         .boxed()
 }
 
